@@ -1,18 +1,19 @@
 /-
-  C18 — open findings: the full statements are FALSE for the unchanged backend/s3proxy/s3.go.
+  C18 — open findings: what is still FALSE for backend/s3proxy/s3.go.
   Every refutation is derived from the REGENERATED table (`Vgw.Gen.ProxyFacts`), so it disappears
   (the build breaks, asking for the lists in Model/Proxy.lean to be updated) when the code is
   repaired. The harness replays each witness end to end on real gateway processes
-  (harness/cmd/vharness/c18*.go; signatures in docs/C18-registration.json).
+  (harness/cmd/vharness/c18*.go).
 
-  * every entry of `lossyReq` / `droppedResp` is individually necessary: for each of them there is
-    a request / a backend answer on which the value is lost (`lossy_entry_is_lost`,
-    `dropped_entry_is_lost`) — hence `proxy_fields_preserved_full` is false;
-  * `no_panic_full` is false: GetObjectAttributes and GetBucketVersioning read the SDK output before
-    testing the error; seven methods dereference optional members of the answer untested;
+  * every entry of `lossyReq` is individually necessary: for each of them there is a request on
+    which the value does not reach the backend as a plain copy (`lossy_entry_is_lost`) — hence the
+    request half of `proxy_fields_preserved_full` is false (Expires, object-lock headers,
+    ListBuckets owner; the three argued entries are harmless: Props.C18.lossyReqFindings_eq);
+  * `no_panic_full` is false: eight methods dereference members of a successful answer untested
+    (members every real endpoint answers: ETag, bucket names, upload ids, …);
   * `acl_fits_full` is false: an ACL document longer than 192 bytes cannot be stored in the tag;
-  * bucket tagging through the proxy is not transparent (NotImplemented), and handing the calls
-    straight to the endpoint (the obvious repair) would clobber and reveal the reserved tag.
+  * the obvious way to implement client bucket tagging (forward the calls) would clobber and
+    reveal the reserved tag — kept as the rejected alternative of Props.C18.acl_tag_isolated.
 -/
 import Vgw.Props.C18
 namespace Vgw.Open.C18
@@ -51,25 +52,11 @@ theorem lossyReq_all_necessary : ∀ e ∈ relevantReq, (e.1, e.2.1) ∈ lossyRe
   rw [hc] at this
   simpa using this
 
-theorem droppedResp_all_necessary : ∀ e ∈ relevantResp, (e.1, e.2.1) ∈ droppedResp → ¬ RespCopied e := by
-  intro e he hl
-  apply dropped_entry_is_lost
-  have key : relevantResp.all (fun e => !droppedResp.contains (e.1, e.2.1) || !respOk e) = true := by decide
-  have := List.all_eq_true.mp key e he
-  have hc : droppedResp.contains (e.1, e.2.1) = true := List.contains_iff_mem.mpr hl
-  rw [hc] at this
-  simpa using this
-
-/-- The full statement is false: `max-keys=0` of ListObjectsV2 does not reach the backend. -/
+/-- The full statement is false: the caller of ListBuckets does not reach the backend. -/
 theorem proxy_fields_preserved_full_false : ¬ proxy_fields_preserved_full := by
   intro h
-  exact lossyReq_all_necessary ("ListObjectsV2", "MaxKeys", "MaxKeys") (by decide) (by decide)
+  exact lossyReq_all_necessary ("ListBuckets", "Owner", "Owner") (by decide) (by decide)
     (h.1 _ (by decide))
-
-/-- the concrete request: MaxKeys = "0" becomes absent (the endpoint then applies its default 1000) -/
-theorem maxkeys_zero_dropped :
-    (primaryCall mListObjectsV2).map (fun c => sdkInput mListObjectsV2 c (fun _ _ => none)
-      (fun f => if f = "MaxKeys" then some "0" else none) "MaxKeys") = some none := by decide
 
 /-- a non-RFC1123 `Expires` is at the mercy of `time.Parse`: modelled as an arbitrary computation,
 which may yield nothing (the code: `if err == nil { expires = &exp }`) -/
@@ -83,24 +70,19 @@ theorem listbuckets_owner_not_sent : reqOk ("ListBuckets", "Owner", "Owner") = f
 
 /-! ### panics -/
 
+/-- an answer to PutObject without ETag makes the method panic (`*output.ETag`) -/
+theorem putobject_panics_without_etag : panics mPutObject false (fun p => p != "ETag") = true := by decide
+
 theorem no_panic_full_false : ¬ no_panic_full := by
   intro h
-  have := h mGetObjectAttributes (by decide) true (fun _ => true)
-  revert this; decide
-
-/-- GetObjectAttributes / GetBucketVersioning: any SDK error (the front end never fills in the
-required `ObjectAttributes` member, so the SDK's own parameter validation already fails) -/
-theorem attributes_panics_on_error : panics mGetObjectAttributes true (fun _ => true) = true := by decide
-theorem versioning_panics_on_error : panics mGetBucketVersioning true (fun _ => true) = true := by decide
+  have := h mPutObject (by decide) false (fun p => p != "ETag")
+  rw [putobject_panics_without_etag] at this
+  exact Bool.noConfusion this
 
 /-- the methods that dereference optional members of a successful answer untested -/
 theorem unguarded_derefs : (methods.filter (fun m => !m.derefUnguarded.isEmpty)).map (fun m => m.name) =
-    ["ListBuckets", "GetBucketOwnershipControls", "CreateMultipartUpload", "ListMultipartUploads", "ListParts",
+    ["ListBuckets", "GetBucketOwnershipControls", "CreateMultipartUpload",
      "UploadPartCopy", "PutObject", "GetBucketAcl", "PutBucketAcl", "GetObjectTagging"] := by decide
-
-/-- an S3 endpoint that omits the empty `KeyMarker` of ListMultipartUploads crashes the gateway -/
-theorem listuploads_panics_without_keymarker :
-    panics mListMultipartUploads false (fun p => p != "KeyMarker") = true := by decide
 
 /-! ### the ACL does not fit -/
 
@@ -110,19 +92,9 @@ theorem acl_fits_full_false : ¬ acl_fits_full := by
   rw [acl_too_long_refused _ (by rw [List.length_replicate]; decide)] at ht
   cases ht
 
-/-! ### bucket tagging -/
+/-! ### bucket tagging: the rejected alternative -/
 
-/-- FULL statement: a client's PutBucketTagging through the proxy succeeds like it does directly. -/
-def bucket_tagging_transparent_full : Prop :=
-  ∀ (store : Option Tags) (new : Tags), new.all (fun kv => kv.2.length ≤ maxTagValue && kv.1 != aclKeyB) = true →
-    (clientTagging false store (.put new)).1 = .ok none
-
-theorem bucket_tagging_transparent_full_false : ¬ bucket_tagging_transparent_full := by
-  intro h
-  have := h none [] (by decide)
-  simp [clientTagging] at this
-
-/-- the obvious repair (forward the three calls) is wrong: a client's put removes the stored ACL … -/
+/-- the obvious implementation (forward the three calls) is wrong: a client's put removes the stored ACL … -/
 def aclOf (s : Option Tags) : Option Bytes := match getBucketAcl s with | .ok a => some a | .error _ => none
 
 theorem naive_put_clobbers_acl :
